@@ -180,6 +180,24 @@ fn main() {
                             writeln!(meta, "{}\t{}\t", id, c.class).unwrap();
                         }
                     });
+                    // the streaming body's hint sampled while the producer runs on another thread
+                    #[cfg(feature = "hooks")]
+                    {
+                        let mut k = 0u64;
+                        sched_gen::gen_c12(&mut |c: sched_engine::SchedCase| {
+                            let idx = match watch::gate(&c.class) {
+                                Some(i) => i,
+                                None => return,
+                            };
+                            sched_engine::explore(&c, if thorough { 2000 } else { 300 }, &mut |r| {
+                                watch::tick();
+                                let id = format!("{}-X{}-{}", prop, idx, k);
+                                k += 1;
+                                writeln!(cases, "{}", sched_engine::case_line(&id, &c, r)).unwrap();
+                                writeln!(meta, "{}\t{} schedule={:?}\t", id, c.class, r.choices).unwrap();
+                            });
+                        });
+                    }
                 }
                 "C13" => {
                     gen_serve::gen_mixed(&mut rng, n_mixed * 3, "c13", &mut emit_serve);
